@@ -151,12 +151,19 @@ func (s *storageDeferredCreation) GetAfterAddSeq(ctx context.Context, addSeq uin
 	return nil
 }
 
-func (s *storageDeferredCreation) createStorageAndDoInTx(ctx context.Context, proc func(ctx context.Context) error) error {
+func (s *storageDeferredCreation) createStorageAndDoInTx(ctx context.Context, proc func(ctx context.Context) error) (err error) {
 	tx, err := s.store.WriteTx(ctx)
 	if err != nil {
 		return fmt.Errorf("write tx: %w", err)
 	}
 	defer tx.Rollback()
+	defer func() {
+		if err != nil {
+			// the storage was created inside the transaction that is rolled back: it does not exist,
+			// the next write has to create it again
+			s.storage = nil
+		}
+	}()
 
 	err = s.createStorage(tx.Context())
 	if err != nil {
